@@ -65,7 +65,8 @@ PERF_SUB = opt({
 PARALLEL_SUB = opt({"max_workers": st.sampled_from([0, 1, 2, 4, 8]), "t1": _B, "t2": _B, "agents": _B})
 GEL_SUB = opt({
     "coactivation_threshold": _U, "observe_top_k": _POSINT, "pair_cap_per_obs": _NN,
-    "update": opt({"mode": st.sampled_from(["additive", "proportional"]), "alpha": st.sampled_from([0.02, 0.5, 1.0, 5.0])}),
+    "update": opt({"mode": st.sampled_from(["additive", "proportional"]), "alpha": st.sampled_from([0.02, 0.5, 1.0, 5.0]),
+                   "clamp_min": st.sampled_from([-1.0, -0.25, 0.0]), "clamp_max": st.sampled_from([0.05, 0.25, 1.0])}),
     "decay": opt({"half_life_turns": _POSINT, "floor": st.sampled_from([0.0, 0.01, 0.5])}),
     "merge": opt({"enabled": _B, "min_size": st.sampled_from([2, 3]), "min_avg_w": _U, "max_diameter": _POSINT, "cap_per_turn": _NN}),
     "split": opt({"enabled": _B, "weak_edge_thresh": _U, "min_component_size": st.sampled_from([2, 3]), "cap_per_turn": _NN}),
@@ -98,7 +99,7 @@ AGGRESSIVE = {
              "t2": {"cache": {"max_entries": 4, "max_bytes": 100000}, "precompute_norms": True},
              "snapshots": {"compression": "zstd", "delta_mode": True, "every_n_turns": 2}, "metrics": {"report_memory": True}},
     "parallel": {"max_workers": 4, "t1": True, "t2": True, "agents": True},
-    "gel": {"coactivation_threshold": 0.0, "observe_top_k": 8, "pair_cap_per_obs": 64, "update": {"alpha": 1.0},
+    "gel": {"coactivation_threshold": 0.0, "observe_top_k": 8, "pair_cap_per_obs": 64, "update": {"alpha": 1.0, "clamp_min": 0.0, "clamp_max": 0.05},
             "decay": {"half_life_turns": 1, "floor": 0.0}, "merge": {"enabled": True, "min_size": 2, "min_avg_w": 0.0, "cap_per_turn": 4},
             "split": {"enabled": True, "weak_edge_thresh": 0.0, "cap_per_turn": 4},
             "promotion": {"enabled": True, "attach_weight": 1.0, "cap_per_turn": 4}},
